@@ -46,7 +46,7 @@ def legacy_images_desc(draw, versions=("1.0", "1.1")):
         if layout[variant]["has_src"]:
             for _ in range(draw(st.integers(0, 3))):          # 0: the document says "src": []
                 entries.append({"variant": variant, "arch": "src", "rec": record("src", variant)})
-    return {"version": version, "compose": draw(gen.compose_section_desc()), "layout": layout, "entries": entries}
+    return {"version": version, "compose": draw(gen.compose_section_desc()), "layout": layout, "entries": entries, "key_order": draw(st.integers(0, 2))}
 
 
 def legacy_images_doc(desc):
@@ -54,10 +54,12 @@ def legacy_images_doc(desc):
     if desc["version"] != "1.0":
         header["type"] = "productmd.images"
     images = {}
-    for variant, lay in desc["layout"].items():
-        images[variant] = {a: [] for a in lay["binary"]}
-        if lay["has_src"]:
-            images[variant]["src"] = []
+    for n, (variant, lay) in enumerate(desc["layout"].items()):
+        keys = list(lay["binary"]) + (["src"] if lay["has_src"] else [])
+        # the order of the arch keys in the file is the producer's: src last, first, or wherever sorting puts it
+        order = (desc.get("key_order", 0) + n) % 3
+        keys = keys if order == 0 else (sorted(keys) if order == 1 else [k for k in keys if k == "src"] + [k for k in keys if k != "src"])
+        images[variant] = {a: [] for a in keys}
     for e in desc["entries"]:
         rec = imm.rec_doc(e["rec"])
         if desc["version"] == "1.0":
